@@ -3,7 +3,7 @@
 OUT="$1"; shift
 cd /verif
 for ID in "$@"; do
-  SEED_WT=/tmp/seed3/CONF SEED_OUT="$OUT" python3 tools/confirm_seed.py "$ID" 2>&1 | tail -1 | cut -c1-400
+  SEED_WT="${SEED_WT:-/tmp/seed3/CONF}" SEED_OUT="$OUT" python3 tools/confirm_seed.py "$ID" 2>&1 | tail -1 | cut -c1-400
   if [ -d seeded/$ID ]; then
     P=${ID%%-*}
     echo "--- $ID vs $P"; tools/trypatch.sh /verif/seeded/$ID/patch.diff $P 2>&1 | head -3 | cut -c1-250
